@@ -295,7 +295,7 @@ fn adaptive_cases(ctx: &mut Ctx, w: &World, idx: usize) {
 
 pub fn run(ctx: &mut Ctx) {
     let w = match world(ctx, ctx.shard % 4 == 0) { Some(w) => w, None => return };
-    let reps = if ctx.thorough() { 12 } else { 2 };
+    let reps = if ctx.thorough() { 40 } else { 2 };
     let mut idx = 0;
     for _ in 0..reps {
         for k in 0..ctx.nshards {
